@@ -17,7 +17,7 @@ RULE = ('Cases: histories of 1..8 operations over {merge on either side, delete,
         'real ska to a starting table rich in ambiguity codes; forced templates (count-changing filter then a threshold align '
         'without that flag; mask then count; delete then filter; merge after filter; weed to empty then merge).  After every '
         'step the read-out (names, table, per-sample counts) is compared with the model table obtained by applying the documented '
-        'effect of the operation.  At the end 16 align settings, distance, map, nk and a further weed/delete are run on the history '
+        'effect of the operation, and the stored object is decoded through the harness (k-mer integers, rows, equal lengths of the parallel containers) against the same table.  At the end 16 align settings, distance, map, nk and a further weed/delete are run on the history '
         'file and on a fresh file with the same content (built through ska build, or written through the public library API when '
         'a sample has lost all its k-mers) and must agree (model-free).  Thresholds use (f, n) with f*n integral.  Non-trivial: '
         'the history has >= 2 steps that change the table; distinct = distinct (start table, history).')
@@ -26,7 +26,7 @@ ASSUMPTIONS = ['weed rounds its frequency threshold down, align up (DESIGN.md se
 TEMPLATES = ['famfilter_then_align', 'mask_then_count', 'delete_then_filter', 'merge_after_filter', 'weed_empty_then_merge']
 REQUIRED = {t: ['template:' + x for x in TEMPLATES] + ['op:merge', 'op:delete', 'op:weed', 'op:rweed', 'op:filter', 'op:reload',
                                                         'final_align_compared', 'final_distance_compared', 'final_map_compared',
-                                                        'final_weed_compared', 'final_delete_compared', 'fresh_via_build', 'fresh_via_library']
+                                                        'final_weed_compared', 'final_delete_compared', 'fresh_via_build', 'fresh_via_library', 'stored_objects_checked']
             for t in ('quick', 'thorough')}
 FILTERS = ['no-filter', 'no-const', 'no-ambig', 'no-ambig-or-const']
 
@@ -190,6 +190,12 @@ class History:
         counts = [sum(1 for r in self.T.values() if r[i] != '-') for i in range(len(self.names))]
         if hdr.get('kmers_per_sample') != counts and not bad:
             bad.append('per-sample counts %s expected %s' % (hdr.get('kmers_per_sample'), counts))
+        if not bad and self.b == self.ctx.bins['rel'] and self.T:
+            # the stored object itself (decoded integers, rows, container lengths); the per-row counts are left unjudged
+            # because an earlier --filter-ambig-as-missing legitimately leaves another kind of count in the file
+            bad += G.stored_problems(self.ctx, self.cur, self.T, self.names, self.k, True, counts=None, kbits=False)
+            if not bad:
+                self.res.count('stored_objects_checked')
         return '; '.join(bad) if bad else None
 
 
